@@ -5,7 +5,7 @@ import copy
 import random
 from pathlib import Path
 
-from world import (FH_CONDS, FH_DEFAULT, IND_DEFAULT, Clock, World, limbs, mkcfg)
+from world import (FH_CONDS, FH_DEFAULT, IND_DEFAULT, Clock, World, limbs, mkcfg, xopts_kw)
 
 FHC = ["cancel", "ignore", "abandon"]
 DECLARABLE = ["POSITIVE_ACK_LIMIT_REACHED", "NAK_LIMIT_REACHED", "CHECK_LIMIT_REACHED", "FILE_CHECKSUM_FAILURE",
@@ -318,6 +318,8 @@ def solo_replay(tid: int, cfg: dict, side: str, ins: list) -> dict:
                 w.call(side, "fsm", None if a["t"] == "none" else w.conc(a), wrej=bool(i.get("w")))
             elif k == "cancel":
                 w.call(side, "cancel", a["right"])
+            elif k == "reset":
+                w.call(side, "reset")
             elif k == "put":
                 if a["mdOnly"]:
                     sf = df = None
@@ -328,7 +330,8 @@ def solo_replay(tid: int, cfg: dict, side: str, ins: list) -> dict:
                 w.call(side, "put", PutRequest(destination_id=did, source_file=sf, dest_file=df,
                                                trans_mode=None if a["mode"] == "none" else MODE[a["mode"]],
                                                closure_requested=None if a["closure"] == "none" else a["closure"] == "true",
-                                               msgs_to_user=[MessageToUserTlv(bytes(m)) for m in a["msgs"]] or None))
+                                               msgs_to_user=[MessageToUserTlv(bytes(m)) for m in a["msgs"]] or None,
+                                               **xopts_kw(a.get("xopts"))))
             else:
                 raise ValueError(k)
         return w.trace(tid, "src" if side == "S" else "dst", sched=ins)
